@@ -201,18 +201,23 @@ impl GLM {
             // println!("ddbeta {:?}", ddbeta);
 
             // println!("solve {:?}", solve(&ddbeta, &dbeta));
-            coef = vsub(&coef, &solve(&ddbeta, &dbeta));
+            let step = solve(&ddbeta, &dbeta);
+            // Newton decrement: the decrease of (half) the penalized deviance predicted for this step
+            let decrement: f64 = dbeta.iter().zip(&step).map(|(g, s)| g * s).sum();
+            coef = vsub(&coef, &step);
 
             // println!("coef {:?}", coef);
 
             let penalized_deviance_previous = penalized_deviance;
 
             penalized_deviance = self.family.penalized_deviance(y, &mu, self.alpha, &coef);
+            // the monitored quantity is not the objective itself and need not be monotone, so a small
+            // relative change only counts once the score is small in the metric of the information matrix
             is_converged = self.has_converged(
                 penalized_deviance,
                 penalized_deviance_previous,
                 self.tolerance,
-            );
+            ) && decrement.abs() <= self.tolerance * penalized_deviance.abs().max(1.);
             n_iter += 1;
 
             if n_iter >= max_iter || is_converged {
